@@ -28,6 +28,9 @@ type diffScenario struct {
 	Mask   uint     `json:"delegated"`
 	Script []string `json:"script"`
 	Prev   bool     `json:"withPreviousRevision"`
+	// Together: a successor r2 (same delegation, previous r1) exists from the start, so that both
+	// revisions roll out interleaved
+	Together bool `json:"successorFromStart"`
 }
 
 func settle(w *world.World) bool {
@@ -57,6 +60,9 @@ func build(sc diffScenario, mask uint) *world.World {
 		w.MustCreate(world.NewObjectSet("r1", osw.PhaseSpecs(osw.B1(sc.N, mask), 1), world.StdProbes(), "r0"))
 	} else {
 		w.MustCreate(world.NewObjectSet("r1", osw.PhaseSpecs(osw.B1(sc.N, mask), 1), world.StdProbes()))
+	}
+	if sc.Together {
+		w.MustCreate(world.NewObjectSet("r2", osw.PhaseSpecs(osw.B1(sc.N, mask), 2), world.StdProbes(), "r1"))
 	}
 	return w
 }
@@ -248,13 +254,14 @@ func diffScenarios(quick bool) []diffScenario {
 			out = append(out, diffScenario{N: sh.n, Mask: sh.m, Script: s})
 		}
 		out = append(out, diffScenario{N: sh.n, Mask: sh.m, Script: []string{"ready:a", "ready:b", "ready:g", "ready:c"}, Prev: true})
+		out = append(out, diffScenario{N: sh.n, Mask: sh.m, Script: []string{"ready:a", "ready:b", "ready:g", "ready:c", "ready:a", "ready:b", "ready:g", "ready:c"}, Together: true})
 	}
 	return out
 }
 
 func runDiff(o checks.Opts) *report.Report {
 	rep := report.New("C15", "local-vs-delegated")
-	rep.Rule = "scripted histories (rollout with objects becoming ready; probe regression and recovery; stale observedGeneration; pause + third-party deletion + unpause; drift; archive; delete with/without failing probes; a foreign object occupying a name; adoption from a previous revision; handover to a successor revision with the same / no / full delegation, also after the phase objects were deleted by a third party and re-created) are run on the all-local ObjectSet and on the same ObjectSet with each subset of phases delegated (class default, real same-cluster ObjectSetPhase controller); after every step both worlds are run fairly to quiescence and the projections (objects: spec, revision, controlled by r1 directly or through its phase objects, terminating; ObjectSet: lifecycle, condition type/status, controllerOf) must be equal"
+	rep.Rule = "scripted histories (rollout with objects becoming ready; probe regression and recovery; stale observedGeneration; pause + third-party deletion + unpause; drift; archive; delete with/without failing probes; a foreign object occupying a name; adoption from a previous revision; a successor revision present from the start, so that both revisions roll out interleaved; handover to a successor revision with the same / no / full delegation, also after the phase objects were deleted by a third party and re-created) are run on the all-local ObjectSet and on the same ObjectSet with each subset of phases delegated (class default, real same-cluster ObjectSetPhase controller); after every step both worlds are run fairly to quiescence and the projections (objects: spec, revision, controlled by r1 directly or through its phase objects, terminating; ObjectSet: lifecycle, condition type/status, controllerOf) must be equal"
 	scs := diffScenarios(o.Quick())
 	rep.Bounds["scenarios"] = len(scs)
 	for i, sc := range scs {
@@ -536,6 +543,12 @@ func init() {
 				}
 				return 3
 			}, Run: runBFS, Replay: replayBFS, Parallel: true},
+			{Name: "handover", Shards: func(t string) int {
+				if t == "thorough" {
+					return 3
+				}
+				return 2
+			}, Run: runHandover, Replay: replayHandover, Parallel: true},
 		},
 	})
 }
